@@ -487,8 +487,11 @@ func CheckC12(c *Ctx) {
 				}
 				if l, ok := as.Lhs[0].(*ast.Ident); ok && info.Defs[l] == obj {
 					if call, ok := as.Rhs[0].(*ast.CallExpr); ok && strings.HasSuffix(calleeName(info, call), "helper.SliceToChan") {
-						if strings.Contains(exprString(call.Args[0]), "Assets") && as.Pos() < worker.Pos() {
-							jobsOK = true
+						src, _ := c.origin(info, fi.Decl, call.Args[0], 0)
+						if sel, isSel := ast.Unparen(src).(*ast.SelectorExpr); isSel && sel.Sel.Name == "Assets" && as.Pos() < worker.Pos() {
+							if v, isField := info.ObjectOf(sel.Sel).(*types.Var); isField && v.IsField() {
+								jobsOK = true
+							}
 						}
 					}
 				}
@@ -500,6 +503,43 @@ func CheckC12(c *Ctx) {
 	if !jobsOK || loop == nil {
 		c.violate("sync/jobs", site, "job channel", fi.Decl.Pos(), "the workers no longer share one channel of all asset names created before they start: assets may be skipped or synchronised twice")
 		return
+	}
+	// with no names given, the assets synchronised are the ones the TARGET holds (documented)
+	{
+		sig := fi.Fn.Type().(*types.Signature)
+		var tgt types.Object
+		if sig.Params().Len() >= 2 {
+			tgt = sig.Params().At(1)
+		}
+		nFallback := 0
+		ast.Inspect(fi.Decl.Body, func(n ast.Node) bool {
+			as, ok := n.(*ast.AssignStmt)
+			if !ok || len(as.Lhs) != 1 || len(as.Rhs) != 1 {
+				return true
+			}
+			sel, isSel := ast.Unparen(as.Lhs[0]).(*ast.SelectorExpr)
+			if !isSel || sel.Sel.Name != "Assets" {
+				return true
+			}
+			nFallback++
+			src, _ := c.origin(info, fi.Decl, as.Rhs[0], 0)
+			good := false
+			if tr, isT := src.(*tupleResult); isT && tr.idx == 0 {
+				if fn := callee(info, tr.call); fn != nil && fn.Name() == "Assets" {
+					if fs, isS := ast.Unparen(tr.call.Fun).(*ast.SelectorExpr); isS {
+						if id, isID := ast.Unparen(fs.X).(*ast.Ident); isID && tgt != nil && info.ObjectOf(id) == tgt {
+							good = true
+						}
+					}
+				}
+			}
+			run.Oblige(good)
+			if !good {
+				c.violate("sync/jobs", site, "default asset list", as.Pos(), "when no asset names are given the assets synchronised must be the ones the target repository holds; the list is taken from "+exprString(src))
+			}
+			return true
+		})
+		run.Count("sync_default_asset_lists", nFallback)
 	}
 	// The per-asset work may have been moved into an unexported method called with the asset name:
 	// then the rules below look at that method's body, with its parameters mapped to Run's.
@@ -601,6 +641,12 @@ func CheckC12(c *Ctx) {
 		}
 		call, ok := as.Rhs[0].(*ast.CallExpr)
 		if !ok || !strings.HasSuffix(calleeName(info, call), ".LastDate") {
+			continue
+		}
+		// the last date asked for is the target's, for this asset
+		if !isRecv(call.Fun, targetObj) || len(call.Args) != 1 || !usesObj(info, call.Args[0], nameObj) {
+			run.Oblige(false)
+			c.violate("sync/start-date", "asset.(*Sync).Run", "last date of "+exprString(call.Fun), call.Pos(), "the date from which an asset is synchronised is taken from "+exprString(call)+", not from the target's last date for that asset: what the target already holds is copied again, or what it misses is skipped")
 			continue
 		}
 		if id, ok := as.Lhs[0].(*ast.Ident); ok {
@@ -1151,6 +1197,8 @@ func CheckC13(c *Ctx) {
 	if !wOK {
 		c.violate("backtest/write-once", site+".worker", fmt.Sprintf("writes=%d", writes), stratLoop.Pos(), "every (asset, strategy) pair must be written exactly once with the outputs of ComputeWithOutcome of that strategy on a fresh copy of the asset's snapshots")
 	}
+	c.writeArguments(wFi, site)
+	c.resultFields()
 	// races
 	n := c.sharedWritesAtGo(runFi, "backtest")
 	run.Count("worker_go_sites", n)
@@ -2329,4 +2377,152 @@ func containsBranchOrReturn(n ast.Node) bool {
 		return !found
 	})
 	return found
+}
+
+// writeArguments: what a worker hands to report.Write is the evaluation itself, untouched: the
+// actions and outcomes are the two results of one strategy.ComputeWithOutcome call for the
+// strategy that is written (not streams derived from them), the snapshots written and the
+// snapshots evaluated are two different branches of one helper.Duplicate of a fresh
+// helper.SliceToChan, and the look-back window the snapshots come from starts LastDays days
+// before now.
+func (c *Ctx) writeArguments(worker *load.FuncInfo, site string) {
+	run := c.Run
+	if worker == nil {
+		return
+	}
+	info := worker.Pkg.TypesInfo
+	nW := 0
+	for _, fi := range c.family(worker) {
+		fd := fi.Decl
+		ast.Inspect(fd.Body, func(nd ast.Node) bool {
+			call, ok := nd.(*ast.CallExpr)
+			if !ok || !strings.HasSuffix(calleeName(info, call), "(Report).Write") || len(call.Args) != 5 {
+				return true
+			}
+			nW++
+			why := ""
+			oa, _ := c.origin(info, fd, call.Args[3], 0)
+			oo, _ := c.origin(info, fd, call.Args[4], 0)
+			ta, okA := oa.(*tupleResult)
+			to, okO := oo.(*tupleResult)
+			switch {
+			case !okA || !strings.HasSuffix(calleeName(info, ta.call), "strategy.ComputeWithOutcome") || ta.idx != 0:
+				why = "the actions written are " + exprString(call.Args[3]) + ", not the first result of strategy.ComputeWithOutcome as it is"
+			case !okO || to.call != ta.call || to.idx != 1:
+				why = "the outcomes written are " + exprString(call.Args[4]) + ", not the second result of the same strategy.ComputeWithOutcome call as it is"
+			}
+			if why == "" {
+				cwo := ta.call
+				s1, _ := c.origin(info, fd, call.Args[1], 0)
+				s2, _ := c.origin(info, fd, cwo.Args[0], 0)
+				if exprString(s1) != exprString(s2) {
+					why = "the result is written for " + exprString(call.Args[1]) + " but was computed with " + exprString(cwo.Args[0])
+				}
+				// two different branches of one duplicate of a fresh stream
+				b1, _ := c.origin(info, fd, call.Args[2], 0)
+				b2, _ := c.origin(info, fd, cwo.Args[1], 0)
+				x1, ok1 := b1.(*ast.IndexExpr)
+				x2, ok2 := b2.(*ast.IndexExpr)
+				if why == "" {
+					switch {
+					case !ok1 || !ok2:
+						why = "the snapshots written and the snapshots evaluated are not branches of one helper.Duplicate"
+					default:
+						d1, _ := c.origin(info, fd, x1.X, 0)
+						d2, _ := c.origin(info, fd, x2.X, 0)
+						k1, c1 := constInt(info, x1.Index)
+						k2, c2 := constInt(info, x2.Index)
+						dc, isCall := d1.(*ast.CallExpr)
+						switch {
+						case d1 != d2 || !isCall || !strings.HasSuffix(calleeName(info, dc), "helper.Duplicate") || len(dc.Args) != 2:
+							why = "the snapshots written and the snapshots evaluated are not branches of one helper.Duplicate"
+						case !c1 || !c2 || k1 == k2:
+							why = "the snapshots written and the snapshots evaluated are the same branch of the duplicate: both consumers compete for one stream"
+						default:
+							src, _ := c.origin(info, fd, dc.Args[0], 0)
+							if sc, isC := src.(*ast.CallExpr); !isC || !strings.HasSuffix(calleeName(info, sc), "helper.SliceToChan") {
+								why = "the duplicated stream is " + exprString(src) + ", not a fresh helper.SliceToChan of the asset's snapshots"
+							}
+						}
+					}
+				}
+			}
+			run.Oblige(why == "")
+			if why != "" {
+				c.violate("backtest/direct-evaluation", site+".worker", short(why, 70), call.Pos(), "what is reported for an (asset, strategy) pair must equal evaluating the strategy directly on the asset's snapshots: "+why)
+			}
+			return true
+		})
+	}
+	run.Count("report_write_calls", nW)
+	run.Floor("report_write_calls", 1)
+	// the look-back window
+	nG := 0
+	for _, fi := range c.family(worker) {
+		fd := fi.Decl
+		ast.Inspect(fd.Body, func(nd ast.Node) bool {
+			call, ok := nd.(*ast.CallExpr)
+			if !ok || !strings.HasSuffix(calleeName(info, call), "(Repository).GetSince") || len(call.Args) != 2 {
+				return true
+			}
+			nG++
+			why := ""
+			o, ofd := c.origin(info, fd, call.Args[1], 0)
+			// the bound may be a parameter of a helper: follow it to the worker once
+			if id, isID := o.(*ast.Ident); isID && ofd != worker.Decl {
+				if pi := paramIndex(info, ofd, info.ObjectOf(id)); pi >= 0 {
+					ast.Inspect(worker.Decl.Body, func(q ast.Node) bool {
+						if cc, isC := q.(*ast.CallExpr); isC {
+							if fn := callee(info, cc); fn != nil && c.P.Decls[fn.Origin()] != nil && c.P.Decls[fn.Origin()].Decl == ofd && pi < len(cc.Args) {
+								o, ofd = c.origin(info, worker.Decl, cc.Args[pi], 0)
+							}
+						}
+						return true
+					})
+				}
+			}
+			add, isCall := o.(*ast.CallExpr)
+			if !isCall || !strings.HasSuffix(calleeName(info, add), "time.(Time).AddDate") || len(add.Args) != 3 {
+				why = "the bound handed to GetSince is " + exprString(o) + ", not time.Now().AddDate(0, 0, -LastDays)"
+			} else {
+				y, okY := constInt(info, add.Args[0])
+				m, okM := constInt(info, add.Args[1])
+				neg, isNeg := ast.Unparen(add.Args[2]).(*ast.UnaryExpr)
+				now := false
+				if sel, isSel := ast.Unparen(add.Fun).(*ast.SelectorExpr); isSel {
+					if nc, isC := ast.Unparen(sel.X).(*ast.CallExpr); isC && calleeName(info, nc) == "time.Now" {
+						now = true
+					}
+				}
+				switch {
+				case !now:
+					why = "the look-back window is not counted back from time.Now()"
+				case !okY || !okM || y != 0 || m != 0:
+					why = "the look-back window is counted in years or months: LastDays is a number of days"
+				case !isNeg || neg.Op != token.SUB || !strings.HasSuffix(exprString(neg.X), "LastDays"):
+					why = "the look-back window starts at now + (" + exprString(add.Args[2]) + ") days, not LastDays days before now"
+				}
+			}
+			run.Oblige(why == "")
+			if why != "" {
+				c.violate("backtest/window", site+".worker", short(why, 70), call.Pos(), "the snapshots a strategy is evaluated on are those inside the look-back window of LastDays days: "+why)
+			}
+			return true
+		})
+	}
+	run.Count("lookback_windows", nG)
+	run.Floor("lookback_windows", 1)
+}
+
+func paramIndex(info *types.Info, fd *ast.FuncDecl, obj types.Object) int {
+	i := 0
+	for _, f := range fd.Type.Params.List {
+		for _, nm := range f.Names {
+			if info.ObjectOf(nm) == obj {
+				return i
+			}
+			i++
+		}
+	}
+	return -1
 }
